@@ -104,6 +104,11 @@ func c08(r *mon.Run) {
 			}
 		}
 	}
+	// lengths around the usual size thresholds, on a sparse parameter grid
+	for _, n := range []int{15, 16, 17, 31, 33, 64, 65, 100} {
+		v := []string{"", "0", "1", "-1", "2", "-2", "3", "-3", "7", "-7", strconv.Itoa(n - 1), strconv.Itoa(n), strconv.Itoa(n + 1), strconv.Itoa(-n), strconv.Itoa(-n - 1), strconv.Itoa(n / 2), strconv.Itoa(-n / 2)}
+		add(n, v, 0)
+	}
 	// spellings of the numbers: leading zeros, -0 (decimal, never octal), on an array longer than 8
 	spell := []string{"", "010", "-010", "08", "-08", "00", "-0", "007", "0011", "1", "-1", "012"}
 	add(12, spell, 0)
